@@ -310,17 +310,22 @@ Proof.
   destruct (kind_eqb (i_kind i) KActive) eqn:KA; simpl; [|discriminate].
   destruct (commit_parent (i_parent i) (l_wp l)) as [e|np] eqn:CP; [discriminate|].
   assert (PC : match np with
-               | Some p => match lookup (meta s) p with
+               | Some p => if Nat.eqb p nm then Some ENotFound else
+                           match lookup (del (meta s) key) p with
                            | Some pi => if kind_eqb (i_kind pi) KCommitted then None else Some EFailedPre
                            | None => Some ENotFound
                            end
                | None => None
                end = None -> parent_checked (meta s) np).
-  { unfold parent_checked. destruct np as [p|]; auto. destruct (lookup (meta s) p) as [pi|]; [|discriminate].
-    destruct (kind_eqb (i_kind pi) KCommitted) eqn:KC; [|discriminate]. intros _. exists pi. split; auto.
-    destruct (i_kind pi); simpl in KC; congruence. }
+  { unfold parent_checked. destruct np as [p|]; auto. destruct (Nat.eqb p nm); [discriminate|].
+    destruct (lookup (del (meta s) key) p) as [pi|] eqn:LD; [|discriminate].
+    destruct (kind_eqb (i_kind pi) KCommitted) eqn:KC; [|discriminate]. intros _. exists pi. split.
+    - destruct (Nat.eqb_spec p key) as [Q|Q]; [subst; rewrite lookup_del_eq in LD; discriminate|].
+      rewrite lookup_del_ne in LD; auto.
+    - destruct (i_kind pi); simpl in KC; congruence. }
   destruct (match np with
-            | Some p => match lookup (meta s) p with
+            | Some p => if Nat.eqb p nm then Some ENotFound else
+                        match lookup (del (meta s) key) p with
                         | Some pi => if kind_eqb (i_kind pi) KCommitted then None else Some EFailedPre
                         | None => Some ENotFound
                         end
@@ -341,7 +346,8 @@ Proof.
   destruct (negb (kind_eqb (i_kind i) KActive)); [intros H; inversion H; auto|].
   destruct (commit_parent (i_parent i) (l_wp l)) as [e0|np]; [intros H; inversion H; auto|].
   destruct (match np with
-            | Some p => match lookup (meta s) p with
+            | Some p => if Nat.eqb p nm then Some ENotFound else
+                        match lookup (del (meta s) key) p with
                         | Some pi => if kind_eqb (i_kind pi) KCommitted then None else Some EFailedPre
                         | None => Some ENotFound
                         end
